@@ -6,7 +6,7 @@ import ast
 import re
 
 from ..engine import rule
-from ..py_frontend import dotted, call_name, calls_under, walk, is_name, src
+from ..py_frontend import dotted, call_name, calls_under, walk, is_name, src, pmatch
 from ..cfg import cfg_of, const_eval
 from ..cxx_ir import CALL_KINDS, CTOR_KINDS
 from .common import (short, inst, calls_in, callee_func, member_path, enclosing_map, ancestors,
@@ -389,3 +389,47 @@ def f8(ctx):
                       '%s: __hash__ uses %s which __eq__ does not compare (%s): equal objects can '
                       'hash differently' % (cname, sorted(ha - ea), sorted(ea)), mod.loc(hs))
     ctx.require(n >= 3, 'only %d classes with both __eq__ and __hash__' % n)
+
+
+# ---------------------------------------------------------------------------------------------
+@rule('T7', floor=2, title='struct sequence field listing: the first n_sequence_fields entries of the type\'s member table, in engine and twin')
+def t7(ctx):
+    """Domain fact: a struct sequence type describes its positions in `tp_members` (one entry per
+    position, unnamed ones included, visible ones first) and publishes how many of them are
+    sequence positions as `n_sequence_fields`.  Other per-type listings (`__match_args__`,
+    `_fields`-like attributes, `dir()`) leave out unnamed positions, so a listing built from them
+    is shorter than the arity for types such as os.stat_result."""
+    prog = ctx.cxx()
+    pkg = ctx.py()
+    f = prog.one('StructSequenceGetFieldsImpl')
+    rets = [r for r in f.body.walk() if r.kind == 'ReturnStmt']
+    ctx.require(rets, 'StructSequenceGetFieldsImpl: no return statement')
+    inits = local_inits(f)
+    attrs = sorted({c.callee_name()[6:] for c in calls_in(f.body) if (c.callee_name() or '').startswith('Py_ID_')})
+    members = [m for m in f.body.walk() if m.kind == 'MemberExpr' and m.name == 'tp_members']
+    fills = [c for c in calls_in(f.body, {'TupleSetItem', 'PyTuple_SET_ITEM'})
+             if any(m.kind == 'MemberExpr' and m.name == 'name' for m in c.walk())]
+    ok = attrs == ['n_sequence_fields'] and bool(members) and bool(fills)
+    # every return hands out the tuple that was filled from the member table
+    filled = {member_path(strip_casts(c.call_args()[0])) for c in fills}
+    for r in rets:
+        v = member_path(strip_casts(r.kids[0])) if r.kids else None
+        if v not in filled:
+            ok = False
+    ctx.check('StructSequenceGetFieldsImpl/member-table', ok,
+              'the engine lists tp_members[0 .. n_sequence_fields) (attributes read: %s)' % attrs,
+              'the engine does not (only) list tp_members[0 .. n_sequence_fields): it reads the type '
+              'attribute(s) %s and returns `%s` - listings other than the member table omit unnamed '
+              'positions, so the number of fields differs from the arity for some types'
+              % (attrs, '; '.join(r.kids[0].text(4) for r in rets if r.kids)[:120]), f.loc)
+    mod = pkg.mod('optree.typing')
+    fn = mod.func('structseq_fields')
+    rets = [s_ for s_ in walk(fn) if isinstance(s_, ast.Return)]
+    okp = len(rets) == 1 and pmatch(rets[0].value, 'tuple(?x[:?c.n_sequence_fields])') is not None
+    srcs = [s_ for s_ in walk(fn) if isinstance(s_, ast.Assign) and rets and okp and
+            is_name(s_.targets[0], pmatch(rets[0].value, 'tuple(?x[:?c.n_sequence_fields])')['x'])]
+    okp = okp and bool(srcs) and all('vars(' in src(s_.value) and 'StructSequenceFieldType' in src(s_.value)
+                                      or 'indices_by_name' in src(s_.value) for s_ in srcs)
+    ctx.check('typing.structseq_fields/member-table', okp,
+              'the twin lists the member descriptors of the class, cut at n_sequence_fields',
+              'the Python twin does not list the member descriptors cut at n_sequence_fields', mod.loc(fn))
